@@ -32,8 +32,9 @@ from __future__ import annotations
 from collections import Counter
 from typing import Any, Callable, Dict, List, Optional, Sequence, Tuple
 
-from ..core import Ctx, HarnessError, Report, Violation
+from ..core import Ctx, HarnessError, Report, Violation, mix32
 from .. import pycore, rsclient
+from ..gen_state import Stream
 
 PROPERTY = "C17"
 RULE = ("finite, complete: one case per duplicated item -- 256 opcode rows (normalised Python row vs Rust row), "
@@ -56,8 +57,19 @@ RULE = ("finite, complete: one case per duplicated item -- 256 opcode rows (norm
         "(constants, predicates, keyboard handlers of both languages, and the CoreRuntime bus observed per direction "
         "x access width at every start offset, keyboard attached vs detached), interrupt and reset vector (constants + "
         "behavioural probes), address-space constants, the 15 PRE prefixes (table vs both cores), and "
-        "disjoint / inside / internal-RAM placement per Binary Ninja view. Non-trivial = an opcode row with "
-        ">= 1 operand, or an item with >= 2 independent copies; distinct = item id.")
+        "disjoint / inside / internal-RAM placement per Binary Ninja view -- as declared (SEGMENTS) and as registered "
+        "by init() through add_auto_segment / add_auto_section for parent files of generated length (one item per view "
+        "x length class: tiny, shorter, one byte short, nominal, one byte long, trailer, landmark = a file-following "
+        "segment would end at another segment's edge or the end of the address space, much longer; the lengths inside "
+        "a class come from the seeded stream). The sub-register layout is additionally read back after generated write "
+        "histories on one register file (one item per family x order class alias-then-whole / whole-then-alias / "
+        "interleaved; declared layout applied to the writes vs Python Registers vs Rust LlamaState; for F also executed "
+        "programs of flag writers and POPU F / POPS F on both cores, with the last whole-register write alone on a "
+        "fresh state as a further copy). The item list is complete; the inputs inside these generated items are a "
+        "seeded sample. Non-trivial = an opcode row with "
+        ">= 1 operand, or an item with >= 2 independent copies (view-init: a length other than the nominal one with "
+        ">= 2 segments registered; write histories: an alias written before a whole-register write that disagrees with "
+        "it, or an alias write that changes the parent; executed programs: both kinds of writer on one state); distinct = item id.")
 
 IMEM_BASE_EXPECTED_LEN = 0x100
 
@@ -75,6 +87,7 @@ class Item:
         self.labels = list(labels)
         self.sample = sample
         self.violations: List[Violation] = []
+        self.counts: Dict[str, int] = {}   # inner generated cases of the item (added to the evidence label counts)
 
     def violate(self, subcheck: str, where: str, symptom: str, detail: str) -> None:
         self.violations.append(Violation(subcheck, where, symptom, {"item": self.id}, detail))
@@ -952,6 +965,308 @@ def check_registers(rust: Any, dump: Dict[str, Any]) -> List[Item]:
         group_check(it, "register-index", [(f"opcodes.REG_NAMES [index {idx}]", table),
                                            (f"python core INC r [index {idx}]", changed(py)),
                                            (f"rust core INC r [index {idx}]", changed(rs))])
+        items.append(it)
+    return items
+
+
+# --------------------------------------------------------------------------------------------------
+# B1b. the sub-register layout under generated write histories
+# --------------------------------------------------------------------------------------------------
+# subreg:* above writes ONE name into a fresh register file and reads the other.  A register file may keep the
+# aliases in slots of their own, though, and then the layout it implements depends on what was written before:
+# the *order* of alias and whole-register writes on one register file is an input, generated here for every
+# family (BA: A,B / I: IL,IH / F: FC,FZ).  After each history every name of the family is read back and the
+# copies are compared: the declared layout (Registers._SUBREG_INFO applied to the writes), the Python register
+# file, the Rust register file.
+
+SUBREG_FAMILIES = (("BA", ("A", "B")), ("I", ("IL", "IH")), ("F", ("FC", "FZ")))
+SUBREG_ORDER_CLASSES = ("alias-then-whole", "whole-then-alias", "interleaved")
+
+
+def gen_subreg_histories(base: str, subs: Sequence[str], order: str, seed: int, n: int) -> List[List[List[Any]]]:
+    st = Stream(seed, 0xC17B, jhash_int(base + ":" + order))
+    pmask = py_reg_mask(base)
+
+    def val(name: str) -> int:
+        m = pmask if name == base else 0xFF
+        k = st.below(4)
+        return 0 if k == 0 else (m if k == 1 else (st.u32() & m))
+
+    out: List[List[List[Any]]] = []
+    for _ in range(n):
+        h: List[List[Any]] = []
+        if order == "alias-then-whole":
+            for _k in range(1 + st.below(2)):
+                nm = st.choice(subs)
+                h.append([nm, val(nm)])
+            h.append([base, val(base)])
+            if st.chance(1, 3):
+                h.append([base, val(base)])
+        elif order == "whole-then-alias":
+            h.append([base, val(base)])
+            for _k in range(1 + st.below(2)):
+                nm = st.choice(subs)
+                h.append([nm, val(nm)])
+        else:
+            names = (base,) + tuple(subs)
+            for _k in range(3 + st.below(4)):
+                nm = st.choice(names)
+                h.append([nm, val(nm)])
+        out.append(h)
+    return out
+
+
+def _declared_history(base: str, subs: Sequence[str], hist: Sequence[Sequence[Any]]) -> Dict[str, int]:
+    """Registers._SUBREG_INFO applied to the writes (plus the rule both register files document in a comment:
+    writing IL clears IH)."""
+    from sc62015.pysc62015 import emulator as E
+
+    pmask = (1 << (8 * int(E.REGISTER_SIZE[E.RegisterName[base]]))) - 1
+    info = {sub: E.Registers._SUBREG_INFO[E.RegisterName[sub]] for sub in subs}
+    p = 0
+    for nm, v in hist:
+        if nm == base:
+            p = int(v) & pmask
+        else:
+            b, shift, mask = info[nm]
+            if nm == "IL":
+                p = int(v) & int(mask)
+            else:
+                p = (p & ~(int(mask) << int(shift)) & pmask) | ((int(v) & int(mask)) << int(shift))
+    out = {base: p}
+    for sub in subs:
+        b, shift, mask = info[sub]
+        out[sub] = (p >> int(shift)) & int(mask)
+    return out
+
+
+def _python_history(base: str, subs: Sequence[str], hist: Sequence[Sequence[Any]]) -> Dict[str, int]:
+    from sc62015.pysc62015.emulator import Registers, RegisterName
+
+    r = Registers()
+    for nm, v in hist:
+        r.set(RegisterName[nm], int(v))
+    return {n: int(r.get(RegisterName[n])) for n in (base,) + tuple(subs)}
+
+
+def check_subreg_histories(rust: Any, seed: int, tier: str, forced: Optional[Dict[str, Any]] = None) -> List[Item]:
+    items: List[Item] = []
+    n = 12 if tier == "quick" else 64
+    for base, subs in SUBREG_FAMILIES:
+        names = (base,) + tuple(subs)
+        for order in SUBREG_ORDER_CLASSES:
+            iid = f"subreg-order:{base}:{order}"
+            hists = gen_subreg_histories(base, subs, order, seed, n)
+            if forced is not None and forced.get("item") == iid and forced.get("histories"):
+                hists = [[[str(a), int(b)] for a, b in h] for h in forced["histories"]]
+            ops: List[List[Any]] = []
+            for h in hists:
+                ops.append(["new"])
+                ops += [["set", nm, v] for nm, v in h]
+                ops += [["get", nm] for nm in names]
+            resp = rust.call({"cmd": "c17.regscript", "ops": ops})
+            if not resp.get("ok"):
+                raise HarnessError(f"c17.regscript failed: {str(resp)[:200]}")
+            vals = [int(x) for x in resp["values"]]
+            nontrivial = 0
+            it = Item(iid, False, ["subreg-order", f"subreg-order:{order}"],
+                      {"family": list(names), "order": order, "histories": len(hists), "first": hists[0] if hists else None})
+            seen = set()
+            for k, h in enumerate(hists):
+                rs = {nm: vals[k * len(names) + j] for j, nm in enumerate(names)}
+                dec = _declared_history(base, subs, h)
+                py = _python_history(base, subs, h)
+                # non-trivial: the last whole-register write disagrees, in some alias field, with an alias write
+                # made before it (a stale alias slot would show), or an alias write changes the parent
+                stale = False
+                last_alias: Dict[str, int] = {}
+                for nm, v in h:
+                    if nm == base:
+                        stale = stale or any(_declared_history(base, subs, [[base, v]])[s_] != last_alias[s_] for s_ in last_alias)
+                    else:
+                        last_alias[nm] = _declared_history(base, subs, [[nm, v]])[nm]
+                if stale or (order != "alias-then-whole" and dec[base] != 0):
+                    nontrivial += 1
+                for nm in names:
+                    tmp = Item(iid, True, [])
+                    group_check(tmp, "subregister-layout",
+                                [(f"emulator.Registers._SUBREG_INFO (applied to the write history) [{nm}]", dec[nm]),
+                                 (f"python Registers (observed after a write history) [{nm}]", py[nm]),
+                                 (f"rust LlamaState (observed after a write history) [{nm}]", rs[nm])],
+                                topic=f"sub-register family {base}, {nm} read after a write history")
+                    for v in tmp.violations:
+                        fp = (v.subcheck, v.where, v.symptom)
+                        if fp in seen:
+                            continue
+                        seen.add(fp)
+                        it.violations.append(Violation(v.subcheck, v.where, v.symptom, {"item": iid, "histories": [h]},
+                                                       f"history {_hex([[a, b] for a, b in h])} -> {v.detail}"))
+            it.nontrivial = nontrivial > 0
+            it.labels.append(f"subreg-order:nontrivial-histories={'0' if nontrivial == 0 else '>=1'}")
+            it.sample["nontrivial_histories"] = nontrivial
+            it.counts = {"subreg-order:histories": len(hists), "subreg-order:histories:nontrivial": nontrivial}
+            items.append(it)
+    return items
+
+
+# The same dimension through executed instructions: flag-only writers (SC, RC, ALU A,n -- they write the aliases
+# FC / FZ) and whole-register writers (POPU F / POPS F from planted stack bytes) in generated orders, on both
+# cores.  What is read: F in the register file after the last step and the byte a trailing PUSHU F stores.
+# When the last F-affecting instruction is a whole-register write the suffix starting there is also run on a
+# fresh state of the same core: a whole-register write defines every alias, whatever was written before.
+
+_F_ALIAS_ATOMS = (("SC", 0x97, False), ("RC", 0x9F, False), ("ADD", 0x40, True), ("SUB", 0x48, True),
+                  ("CMP", 0x60, True), ("AND", 0x70, True), ("OR", 0x78, True), ("XOR", 0x68, True))
+_F_WHOLE_ATOMS = (("POPU", 0x3E, "U"), ("POPS", 0x5F, "S"))
+_F_PROG_PC = 0x1000
+_F_PROG_REGS = {"BA": 0x0000, "I": 0x0001, "X": 0x40000, "Y": 0x41000, "U": 0x50000, "S": 0x51000, "F": 0}
+
+
+def gen_flag_programs(order: str, seed: int, n: int, py_table: Dict[int, Any]) -> List[List[List[Any]]]:
+    """A program is a list of atoms [mnemonic, opcode, operand]; for whole-register writers the operand is the
+    byte planted on the stack, for ALU atoms the immediate."""
+    st = Stream(seed, 0xC17C, jhash_int(order))
+    alias = [a for a in _F_ALIAS_ATOMS if short_name(py_row(py_table[a[1]])["name"]).upper().startswith(a[0])]
+    whole = [a for a in _F_WHOLE_ATOMS if short_name(py_row(py_table[a[1]])["name"]).upper().startswith(a[0])]
+    if not alias or not whole:
+        return []
+
+    def alias_atom() -> List[Any]:
+        nm, op, has_imm = st.choice(alias)
+        return [nm, op, (st.byte() if has_imm else None)]
+
+    def whole_atom() -> List[Any]:
+        nm, op, _sp = st.choice(whole)
+        k = st.below(4)
+        v = st.below(4) if k == 0 else ((0xFC | st.below(4)) if k == 1 else (st.u32() & 0xFF))
+        return [nm, op, v]
+
+    out: List[List[List[Any]]] = []
+    for _ in range(n):
+        if order == "alias-then-whole":
+            prog = [alias_atom() for _k in range(1 + st.below(3))] + [whole_atom()]
+        elif order == "whole-then-alias":
+            prog = [whole_atom()] + [alias_atom() for _k in range(1 + st.below(3))]
+        else:
+            prog = [(whole_atom() if st.chance(1, 2) else alias_atom()) for _k in range(3 + st.below(4))]
+        out.append(prog)
+    return out
+
+
+def _flag_program_image(prog: Sequence[Sequence[Any]]) -> Tuple[bytes, Dict[int, int], int]:
+    """(code incl. the trailing PUSHU F, planted stack bytes, number of steps)."""
+    code = bytearray()
+    mem: Dict[int, int] = {}
+    sp = {"U": _F_PROG_REGS["U"], "S": _F_PROG_REGS["S"]}
+    for nm, op, arg in prog:
+        code.append(int(op))
+        w = [a for a in _F_WHOLE_ATOMS if a[1] == op]
+        if w:
+            mem[sp[w[0][2]]] = int(arg) & 0xFF
+            sp[w[0][2]] += 1
+        elif arg is not None:
+            code.append(int(arg) & 0xFF)
+    code.append(0x2E)  # PUSHU F
+    return bytes(code), mem, len(prog) + 1
+
+
+def _f_layout_bits() -> int:
+    """The bits of F the sub-register layout names (union of the alias fields of F in Registers._SUBREG_INFO).
+    Only these are observed on the instruction route: the Python lifter models F as the two flags (RegF), so the
+    upper six bits of F do not survive POPU F there while the Rust core keeps the byte -- instruction semantics
+    (C06), not layout."""
+    from sc62015.pysc62015 import emulator as E
+
+    m = 0
+    for sub, (b, shift, mask) in E.Registers._SUBREG_INFO.items():
+        if b is E.RegisterName.F:
+            m |= int(mask) << int(shift)
+    return m
+
+
+def _py_flag_run(code: bytes, mem: Dict[int, int], steps: int) -> Any:
+    from sc62015.pysc62015.emulator import Emulator, RegisterName
+
+    init = dict(mem)
+    for i, b in enumerate(code):
+        init[_F_PROG_PC + i] = b
+    rm = RawMem(init)
+    emu = Emulator(rm, reset_on_init=False)  # type: ignore[arg-type]
+    for k, v in _F_PROG_REGS.items():
+        emu.regs.set(RegisterName[k], v)
+    emu.regs.set(RegisterName.PC, _F_PROG_PC)
+    f_before_push = None
+    try:
+        for i in range(steps):
+            if i == steps - 1:
+                f_before_push = int(emu.regs.get(RegisterName.F))
+                rm.writes.clear()
+            emu.execute_instruction(int(emu.regs.get(RegisterName.PC)))
+    except BaseException as exc:  # noqa: BLE001
+        return f"error: {type(exc).__name__}"
+    lm = _f_layout_bits()
+    return [None if f_before_push is None else f_before_push & lm, int(emu.regs.get(RegisterName.FC)),
+            int(emu.regs.get(RegisterName.FZ)), [v & lm for _, v in rm.writes][:1]]
+
+
+def _rs_flag_run(rust: Any, code: bytes, mem: Dict[int, int], steps: int) -> Any:
+    pairs = [[a, v] for a, v in sorted(mem.items())] + [[_F_PROG_PC + i, b] for i, b in enumerate(code)]
+    r = dict(_F_PROG_REGS)
+    r["PC"] = _F_PROG_PC
+    resp = rust.call({"cmd": "cpu.run", "regs": r, "seed": 0, "mem": pairs, "steps": steps})
+    st = resp.get("steps") or []
+    if not resp.get("ok") or len(st) != steps or any("err" in x for x in st):
+        return "error: " + str(resp.get("error") or resp.get("panic") or [x.get("err") for x in st if "err" in x])[:80]
+    lm = _f_layout_bits()
+    f = int(st[-2]["regs"]["F"]) if steps >= 2 else None
+    fin = int(st[-1]["regs"]["F"])
+    # the cpu.run verb reports F only; FC / FZ are taken from the final F (PUSHU F does not write flags)
+    return [None if f is None else f & lm, fin & 1, (fin >> 1) & 1, [int(v) & lm for _, v in st[-1].get("writes", [])][:1]]
+
+
+def check_flag_programs(py_table: Dict[int, Any], rust: Any, seed: int, tier: str,
+                        forced: Optional[Dict[str, Any]] = None) -> List[Item]:
+    items: List[Item] = []
+    n = 10 if tier == "quick" else 48
+    whole_ops = {a[1] for a in _F_WHOLE_ATOMS}
+    for order in SUBREG_ORDER_CLASSES:
+        iid = f"subreg-order:F:executed:{order}"
+        progs = gen_flag_programs(order, seed, n, py_table)
+        if forced is not None and forced.get("item") == iid and forced.get("programs"):
+            progs = [[[str(a), int(b), (None if c is None else int(c))] for a, b, c in pr] for pr in forced["programs"]]
+        it = Item(iid, False, ["subreg-order", "subreg-order:executed", f"subreg-order:executed:{order}"],
+                  {"order": order, "programs": len(progs), "first": progs[0] if progs else None})
+        seen = set()
+        nontrivial = 0
+        for prog in progs:
+            code, mem, steps = _flag_program_image(prog)
+            srcs: List[Tuple[str, Any]] = [
+                (f"python core, F / FC / FZ / pushed F after executed writes", _py_flag_run(code, mem, steps)),
+                (f"rust core, F / FC / FZ / pushed F after executed writes", _rs_flag_run(rust, code, mem, steps))]
+            last_f = max((i for i, a in enumerate(prog)), default=-1)
+            if prog and prog[last_f][1] in whole_ops and last_f > 0:
+                # earlier whole-register writes consumed stack bytes: re-plant for the suffix
+                suffix = [prog[last_f]]
+                c2, m2, s2 = _flag_program_image(suffix)
+                srcs.append(("python core, the last whole-register write alone on a fresh state", _py_flag_run(c2, m2, s2)))
+                srcs.append(("rust core, the last whole-register write alone on a fresh state", _rs_flag_run(rust, c2, m2, s2)))
+            has_alias_before_whole = any(prog[i][1] not in whole_ops and any(prog[j][1] in whole_ops for j in range(i + 1, len(prog)))
+                                         for i in range(len(prog)))
+            kinds = {a[1] in whole_ops for a in prog}
+            if has_alias_before_whole or kinds == {True, False}:   # both kinds of writer on one state
+                nontrivial += 1
+            tmp = Item(iid, True, [])
+            group_check(tmp, "subregister-layout", srcs, topic="F / FC / FZ after executed writes")
+            for v in tmp.violations:
+                fp = (v.subcheck, v.where, v.symptom)
+                if fp in seen:
+                    continue
+                seen.add(fp)
+                it.violations.append(Violation(v.subcheck, v.where, v.symptom, {"item": iid, "programs": [prog]},
+                                               f"program {_hex([list(a) for a in prog])} + PUSHU F -> {v.detail}"))
+        it.nontrivial = nontrivial > 0
+        it.sample["nontrivial_programs"] = nontrivial
+        it.counts = {"subreg-order:programs": len(progs), "subreg-order:programs:nontrivial": nontrivial}
         items.append(it)
     return items
 
@@ -2345,10 +2660,279 @@ def check_views() -> List[Item]:
 
 
 # --------------------------------------------------------------------------------------------------
+# F2. what the views really register: init() observed over generated parent-file lengths
+# --------------------------------------------------------------------------------------------------
+# The SEGMENTS tables are declarations; the segments Binary Ninja gets are whatever init() hands to
+# add_auto_segment / add_auto_section for the parent file at hand.  The parent file's length is an input of
+# init() that the table dump holds constant (there is no file), so it is generated here: shorter than, equal
+# to, one byte around, and far beyond the nominal image, plus the "landmark" lengths at which a file-backed
+# segment that followed the file would reach another segment's start / end or the end of the address space.
+
+class _ParentFile:
+    """Stand-in for the raw parent BinaryView of a file of `length` bytes (the subset of the BinaryView API a
+    view may consult: length / len() / start / end / read / file).  Contents: ROM signature + hash bytes."""
+
+    def __init__(self, length: int, seed: int) -> None:
+        import types as _t
+
+        self.length = int(length)
+        self.start = 0
+        self.end = int(length)
+        self._seed = seed
+        self.file = _t.SimpleNamespace(filename="image.bin", original_filename="image.bin")
+
+    def __len__(self) -> int:
+        return self.length
+
+    def _byte(self, off: int) -> int:
+        sig = (0x2A, 0x0A, 0x00, 0x00)
+        return sig[off] if off < 4 else (mix32(self._seed, off) & 0xFF)
+
+    def read(self, addr: int, n: int) -> bytes:
+        lo = max(0, int(addr))
+        hi = min(self.length, int(addr) + max(0, int(n)))
+        return bytes(self._byte(o) for o in range(lo, hi))
+
+
+class _ViewRecorder:
+    """The Binary Ninja BinaryView API *below* the view class (the mock BinaryView lacks it): records what is
+    registered.  Sits behind the view class in the MRO, so whatever the view itself defines is used as is."""
+
+    def _rec(self) -> Dict[str, List[Any]]:
+        return self.__dict__.setdefault("_c17_rec", {"segments": [], "sections": []})
+
+    def add_auto_segment(self, start: Any, length: Any, data_offset: Any = 0, data_length: Any = 0, flags: Any = None) -> None:
+        self._rec()["segments"].append((int(start), int(length), int(data_offset), int(data_length)))
+
+    def add_auto_section(self, name: Any, start: Any, length: Any, *a: Any, **k: Any) -> None:
+        self._rec()["sections"].append((str(name), int(start), int(length)))
+
+    def read_int(self, addr: int, size: int, *a: Any, **k: Any) -> int:
+        """Little-endian read through the registered file-backed segments (0 where nothing is backed)."""
+        v = 0
+        for i in range(int(size)):
+            b = 0
+            for (st, ln, doff, dlen) in self._rec()["segments"]:
+                o = int(addr) + i - st
+                if 0 <= o < ln and o < dlen:
+                    got = self.data.read(doff + o, 1)  # type: ignore[attr-defined]
+                    b = got[0] if got else 0
+                    break
+            v |= b << (8 * i)
+        return v
+
+    def define_data_var(self, *a: Any, **k: Any) -> None:
+        pass
+
+    def define_auto_symbol(self, *a: Any, **k: Any) -> None:
+        pass
+
+    def add_function(self, *a: Any, **k: Any) -> None:
+        pass
+
+    def define_user_type(self, *a: Any, **k: Any) -> None:
+        pass
+
+
+class _ArchForViews:
+    """Registers the SC62015 architecture with the mocks for the duration of the observation (init() looks it up
+    by name and takes its standalone platform); everything added is taken away again."""
+
+    def __enter__(self) -> "_ArchForViews":
+        import types as _t
+        from binaryninja.architecture import Architecture
+        from sc62015.arch import SC62015
+
+        self._registry = getattr(Architecture, "_registry", None)
+        self._registered = False
+        self._platform = False
+        try:
+            arch = Architecture["SC62015"]
+        except Exception:  # noqa: BLE001
+            SC62015.register()
+            self._registered = True
+            arch = Architecture["SC62015"]
+        self._arch = arch
+        if not hasattr(arch, "standalone_platform"):
+            arch.standalone_platform = _t.SimpleNamespace(  # type: ignore[attr-defined]
+                parse_types_from_source=lambda src, *a, **k: _t.SimpleNamespace(types={}))
+            self._platform = True
+        return self
+
+    def __exit__(self, *exc: Any) -> None:
+        if self._platform:
+            try:
+                delattr(self._arch, "standalone_platform")
+            except Exception:  # noqa: BLE001
+                pass
+        if self._registered and isinstance(self._registry, dict):
+            self._registry.pop("SC62015", None)
+
+
+def observe_view_init(cls: Any, file_length: int, seed: int) -> Dict[str, Any]:
+    """Run cls(parent).init() over the recording BinaryView API; never raises."""
+    rec_cls = type(cls.__name__, (cls, _ViewRecorder), {})
+    out: Dict[str, Any] = {"segments": [], "sections": [], "ok": None}
+    try:
+        v = rec_cls(_ParentFile(file_length, seed))
+        try:
+            out["ok"] = bool(v.init())
+        except BaseException as exc:  # noqa: BLE001
+            out["err"] = f"{type(exc).__name__}: {str(exc)[:120]}"
+        rec = v.__dict__.get("_c17_rec") or {}
+        out["segments"] = list(rec.get("segments", []))
+        out["sections"] = list(rec.get("sections", []))
+    except BaseException as exc:  # noqa: BLE001
+        out["err"] = f"{type(exc).__name__}: {str(exc)[:120]}"
+    return out
+
+
+VIEW_LENGTH_CLASSES = ("tiny", "shorter", "shorter-by-1", "nominal", "longer-by-1", "trailer", "landmark", "much-longer")
+
+
+def view_nominal_length(cls: Any) -> int:
+    backed = [int(s.file_offset) + int(s.length) for s in cls.SEGMENTS if s.file_offset is not None]
+    return max(backed) if backed else 0
+
+
+def gen_view_file_lengths(cls: Any, seed: int, tier: str, space: int) -> Dict[str, List[int]]:
+    """File lengths per class for one view; the fixed boundary lengths are always there, the rest comes from the
+    seeded stream.  `landmark`: lengths at which a file-backed segment that ran to the end of the file would end
+    exactly at / one byte around another segment's start or end or the end of the address space."""
+    st = Stream(seed, 0xC17F, jhash_int(cls.__name__))
+    nom = view_nominal_length(cls)
+    n_rand = 2 if tier == "quick" else 6
+    out: Dict[str, List[int]] = {c: [] for c in VIEW_LENGTH_CLASSES}
+    out["tiny"] = sorted({4 + st.below(0xFC) for _ in range(n_rand)})
+    out["shorter"] = sorted({0x100 + st.below(max(1, nom - 0x101)) for _ in range(n_rand)})
+    out["shorter-by-1"] = [nom - 1]
+    out["nominal"] = [nom]
+    out["longer-by-1"] = [nom + 1]
+    out["trailer"] = sorted({nom + 2 + st.below(0x1000) for _ in range(n_rand)})
+    marks: List[int] = []
+    edges = sorted({int(s.start) for s in cls.SEGMENTS} | {int(s.start) + int(s.length) for s in cls.SEGMENTS} | {space})
+    for s in cls.SEGMENTS:
+        if s.file_offset is None:
+            continue
+        for e in edges:
+            for d in (-1, 0, 1):
+                ln = e + d - int(s.start) + int(s.file_offset)
+                if ln > nom + 1:
+                    marks.append(ln)
+    marks = sorted(set(marks))
+    if marks:
+        keep = len(marks) if tier != "quick" else min(len(marks), 4)
+        picked = {marks[0]}
+        while len(picked) < keep:
+            picked.add(st.choice(marks))
+        out["landmark"] = sorted(picked)
+    out["much-longer"] = sorted({2 * nom, 4 * nom} | {nom + 0x1000 + st.below(7 * nom) for _ in range(n_rand)})
+    return out
+
+
+def jhash_int(name: str) -> int:
+    h = 0
+    for ch in name:
+        h = mix32(h, ord(ch))
+    return h
+
+
+def check_view_init(seed: int, tier: str, forced: Optional[Dict[str, Any]] = None) -> List[Item]:
+    from sc62015 import view as V
+    from sc62015.pysc62015 import constants as K
+
+    items: List[Item] = []
+    p = py_run(bytes([0x32, 0x80, 0x05]), BASE_REGS, {})
+    lb = _imem_base(p)
+    if not isinstance(lb, int):
+        raise HarnessError("could not observe the lifter's internal-memory base address")
+    space = int(K.ADDRESS_SPACE_SIZE)
+    with _ArchForViews():
+        for cls in (V.SC62015RomView, V.SC62015FullView):
+            vname = cls.__name__
+            route = f"{vname}.init() (observed)"
+            declared = [(str(s.name), int(s.start), int(s.length)) for s in cls.SEGMENTS]
+            nom = view_nominal_length(cls)
+            lengths = gen_view_file_lengths(cls, seed, tier, space)
+            for lcls in VIEW_LENGTH_CLASSES:
+                iid = f"view-init:{vname}:{lcls}"
+                lens = lengths[lcls]
+                if forced is not None and forced.get("item") == iid and forced.get("file_lengths"):
+                    lens = [int(x) for x in forced["file_lengths"]]
+                    seed_used = int(forced.get("content_seed", seed))
+                else:
+                    seed_used = seed
+                case = {"item": iid, "file_lengths": list(lens), "content_seed": seed_used}
+                obs = [(ln, observe_view_init(cls, ln, seed_used)) for ln in lens]
+                nontrivial = any(ln != nom and len(o["segments"]) >= 2 for ln, o in obs)
+                labels = ["view-init", f"view-init:{lcls}"] + (["view-init:nontrivial"] if nontrivial else [])
+                if any("err" in o for _, o in obs):
+                    labels.append("view-init:raised")
+                it = Item(iid, nontrivial, labels,
+                          {"view": vname, "file_length_class": lcls, "nominal": hex(nom),
+                           "file_lengths": [hex(x) for x in lens],
+                           "registered": [[hex(x) for x in sg] for sg in (obs[0][1]["segments"] if obs else [])]})
+
+                it.counts = {"view-init:init-runs": len(obs),
+                             "view-init:init-runs:nontrivial (length != nominal, >= 2 segments registered)":
+                                 sum(1 for ln, o in obs if ln != nom and len(o["segments"]) >= 2)}
+
+                def bad(subcheck: str, where: str, symptom: str, detail: str) -> None:
+                    it.violations.append(Violation(subcheck, where, symptom, dict(case), detail))
+
+                for ln, o in obs:
+                    ctx_s = f"parent file of {ln:#x} bytes ({lcls}; nominal {nom:#x})" + (f"; init() raised {o['err']}" if "err" in o else "")
+                    segs = o["segments"]
+                    secs = o["sections"]
+                    names = [secs[i][0] if len(secs) == len(segs) else f"segment #{i}" for i in range(len(segs))]
+                    geo = [(names[i], segs[i][0], segs[i][1]) for i in range(len(segs))]
+                    for i in range(len(geo)):
+                        for j in range(i + 1, len(geo)):
+                            (n1, a1, l1), (n2, a2, l2) = geo[i], geo[j]
+                            if a1 < a2 + l2 and a2 < a1 + l1:
+                                lo, hi = sorted([n1, n2])
+                                bad("view-segments", f"{route}: {lo} / {hi}", "segments overlap",
+                                    f"{n1}=[{a1:#x},{a1 + l1:#x}) {n2}=[{a2:#x},{a2 + l2:#x}); {ctx_s}")
+                    for n, a, l in geo:
+                        if a < 0 or l <= 0 or a + l > space:
+                            bad("view-segments", f"{route}: {n}", "segment is empty or not inside the address space",
+                                f"[{a:#x},{a + l:#x}) vs ADDRESS_SPACE_SIZE={space:#x}; {ctx_s}")
+                    iram = [g for g in geo if g[0] == "Internal RAM"]
+                    if len(iram) != 1:
+                        bad("view-internal-ram", route, "does not define exactly one Internal RAM segment", f"{geo}; {ctx_s}")
+                    elif iram[0][1] != lb:
+                        bad("view-internal-ram", f"{route}: Internal RAM", "does not start at the address the lifter uses",
+                            f"segment start {iram[0][1]:#x}, lifter uses {lb:#x}; {ctx_s}")
+                    elif iram[0][2] != int(K.INTERNAL_MEMORY_LENGTH):
+                        bad("view-internal-ram", f"{route}: Internal RAM", "length differs from INTERNAL_MEMORY_LENGTH",
+                            f"segment length {iram[0][2]:#x}; {ctx_s}")
+                    # the registered geometry is a copy of the declared table (and of the class docstring's map)
+                    dmap = {n: (a, l) for n, a, l in declared}
+                    gmap = {n: (a, l) for n, a, l in geo}
+                    for n in sorted(set(dmap) | set(gmap)):
+                        if dmap.get(n) != gmap.get(n):
+                            bad("view-segments-registered", f"{route}: {n}",
+                                "what init() registers differs from the declared SEGMENTS row",
+                                f"declared {_hex(dmap.get(n))}, registered {_hex(gmap.get(n))}; {ctx_s}")
+                # one fingerprint once per item
+                seen = set()
+                uniq = []
+                for v in it.violations:
+                    k = (v.subcheck, v.where, v.symptom)
+                    if k not in seen:
+                        seen.add(k)
+                        uniq.append(v)
+                it.violations = uniq
+                items.append(it)
+    return items
+
+
+# --------------------------------------------------------------------------------------------------
 # driver
 # --------------------------------------------------------------------------------------------------
 
-def collect_items() -> List[Item]:
+def collect_items(seed: int = 1, tier: str = "quick", forced: Optional[Dict[str, Any]] = None) -> List[Item]:
+    """`forced`: a saved case; the generated inputs of the item it names are taken from it instead of the stream."""
     from sc62015.pysc62015.instr.opcode_table import OPCODES
 
     rsclient.build()
@@ -2362,6 +2946,8 @@ def collect_items() -> List[Item]:
     items += check_rel_sign(dict(OPCODES), rust)
     items += check_opcode_classes(dict(OPCODES), rust, dump)
     items += check_registers(rust, dump)
+    items += check_subreg_histories(rust, seed, tier, forced)
+    items += check_flag_programs(dict(OPCODES), rust, seed, tier, forced)
     items += check_snapshot_layout(rust, dump)
     items += check_trace_layout(rust)
     items += check_selector_codes(rust)
@@ -2372,6 +2958,7 @@ def collect_items() -> List[Item]:
     items += check_address_space(rust, dump)
     items += check_pre_table(rust)
     items += check_views()
+    items += check_view_init(seed, tier, forced)
     ids = [it.id for it in items]
     if len(set(ids)) != len(ids):
         raise HarnessError("duplicate item ids in C17")
@@ -2421,6 +3008,20 @@ ASSUMPTIONS = [
     "file (cpu.regs.set -> cpu.snapshot_registers / cpu.regs.get): the collector's own storage masks (24 bits for "
     "the address registers) are not probed with synthetic snapshots.  Tracing-on routes are skipped silently when "
     "the tracer cannot be started; the trace files go to a temporary directory",
+    "sub-register layout under write histories: every name of a family is read back after generated histories of "
+    "alias and whole-register writes on ONE register file (register-file API of both languages, and for F also "
+    "executed SC / RC / ALU A,n / POPU F / POPS F programs ending in PUSHU F); the declared copy is "
+    "Registers._SUBREG_INFO applied to the writes, plus the rule both register files state in a comment (writing IL "
+    "clears IH).  On the instruction route only the bits of F that the layout names (FC, FZ) are observed: the Python "
+    "lifter models F as the two flags, so the upper six bits of a popped F differ between the cores (instruction "
+    "semantics, C06).  A whole-register write alone on a fresh state of the same core is a further copy",
+    "views, observed: init() runs over a recording stand-in for the Binary Ninja BinaryView API (add_auto_segment / "
+    "add_auto_section / read_int / define_* / add_function) placed *behind* the view class in the MRO, on a parent "
+    "file object offering length / len() / start / end / read / file, with the architecture registered in the mocks "
+    "and a stand-in standalone platform for the duration of the observation.  Segment names come from the section "
+    "registered with the segment.  Judged per generated file length: pairwise disjoint, inside the address space, "
+    "Internal RAM at the lifter's base, and the registered (name, start, length) equal to the declared SEGMENTS row "
+    "(file backing -- data offset / data length -- is not judged)",
     "key-port window of the CoreRuntime bus: an offset belongs to it when the byte loaded from it, or what a store "
     "leaves in memory / in a keyboard latch, depends on the keyboard being attached (twin run with rt.keyboard = "
     "None); the keyboard's latches are set through KeyboardMatrix::handle_write to values that differ from the "
@@ -2431,9 +3032,10 @@ ASSUMPTIONS = [
 
 def run(ctx: Ctx) -> Report:
     rep = Report()
-    for it in collect_items():
+    for it in collect_items(ctx.seed, ctx.tier):
         rep.case(it.id if it.nontrivial else None, it.labels,
                  it.sample if (it.sample is not None and _want_sample(rep, it)) else None)
+        rep.labels.update(it.counts)
         for v in it.violations:
             rep.violate(v)
     rep.rule = RULE
@@ -2446,6 +3048,8 @@ _SAMPLE_IDS = ("opcode:42", "opcode:E3", "opcode:56", "len:F0", "reg-width:X", "
                "reg-index:1", "imem:BP", "imem-use:PY", "vector:interrupt", "vector:reset",
                "const:INTERNAL_MEMORY_START", "pre:37", "view:SC62015FullView:disjoint", "opcode:D6",
                "snap-slot:U", "snap-cross:py-to-rs", "regpair-index:mv:6", "ptr-index:7",
+               "subreg-order:F:alias-then-whole", "subreg-order:F:executed:alias-then-whole",
+               "view-init:SC62015RomView:longer-by-1", "view-init:SC62015RomView:much-longer",
                "opclass:conditional-jump", "opclass:call-level-up", "opclass:interrupt-return", "trace-subreg:FZ",
                "trace-subreg:B", "reg-set:20bit", "op-width:INC:S", "op-width:ADD:X", "op-width:MV:U", "imem-window:keyboard")
 
@@ -2457,7 +3061,7 @@ def _want_sample(rep: Report, it: Item) -> bool:
 def replay(ctx: Ctx, case: Dict[str, Any]) -> List[Violation]:
     want = case.get("item")
     out: List[Violation] = []
-    for it in collect_items():
+    for it in collect_items(ctx.seed, ctx.tier, case):
         if it.id == want:
             out += it.violations
     return out
